@@ -1509,11 +1509,11 @@ class MacroFunction(Macro):
             for idx in range(len(self.args) - 1, len(input_args) - 1):
                 va_args_raw.extend(input_args[idx][0])
                 va_args_raw.append(comma)
-                va_args_exp.extend(input_args[idx][1])
+                va_args_exp.extend(input_args[idx][-1])
                 va_args_exp.append(comma)
             if len(self.args) - 1 < len(input_args):
                 va_args_raw.extend(input_args[-1][0])
-                va_args_exp.extend(input_args[-1][1])
+                va_args_exp.extend(input_args[-1][-1])
 
             input_args[len(self.args) - 1 :] = [(va_args_raw, va_args_exp)]
 
